@@ -35,6 +35,7 @@ def gen_flight(rng, sid, faults):
     zs = []              # per unregistered instance still running: set of sessions attached to it
     pend = [0]
     cnt = [100]
+    busy = [False]       # an unregistered instance is held inside a publish (hubunregmid .. zfinish)
     loaded = [False]     # an instance is registered with the hub (any {sub} of a free session loads the topic)
 
     def hubunreg():
@@ -142,7 +143,19 @@ def gen_flight(rng, sid, faults):
         if rng.random() < 0.1:
             return                                           # the unregister request stays pending for a while
         nz = len(zs)
-        hubunreg()
+        mid = None
+        owners = [s for s in late if sc.sessions[s] == 1]
+        if late and not busy[0] and rng.random() < 0.3:
+            # the unregistration lands inside a publish handler of the instance (between its isInactive check and its Save)
+            mid = rng.choice(owners or late)
+            ops.append(("N", "hubunregmid", [mid, content(), 1 if rng.random() < 0.15 else 0]))
+            pend[0] -= 1
+            zs.append(set(att))
+            att.clear()
+            loaded[0] = False
+            busy[0] = True
+        else:
+            hubunreg()
         zi = len(zs) - 1 if len(zs) > nz else -1
         steps = []
         others = free()
@@ -156,7 +169,9 @@ def gen_flight(rng, sid, faults):
             if rng.random() < 0.4 and len(others) > 1:
                 steps.append(("sub", rng.choice(others)))
         tail = []
-        if zi >= 0 and zs[zi]:
+        if mid is not None:
+            tail.append(("zfinish", None))
+        elif zi >= 0 and zs[zi]:
             for _ in range(rng.randint(1, 3)):
                 tail.append(("zpub", rng.choice(sorted(zs[zi]))))
             if rng.random() < 0.3:
@@ -177,6 +192,14 @@ def gen_flight(rng, sid, faults):
                 ops.append(("N", "zpub", [zi, s, content(), 1 if rng.random() < 0.15 else 0]))
             elif what == "zsub":
                 ops.append(("N", "sub", [s, "-", 0]))         # already subscribed: 304
+            elif what == "zfinish":
+                ops.append(("N", "zfinish", [zi]))
+                busy[0] = False
+                back = zs.pop(zi)
+                zi = -1
+                for x in sorted(back):
+                    if rng.random() < 0.5:
+                        sub(x)
         if zi >= 0 and rng.random() < 0.9:
             ops.append(("N", "zexit", [zi]))
             back = zs.pop(zi)
@@ -218,6 +241,7 @@ def gen_flight(rng, sid, faults):
             zs[:] = []
             pend[0] = 0
             loaded[0] = False
+            busy[0] = False
             for s in sids:
                 if rng.random() < 0.7:
                     sub(s)
@@ -271,12 +295,17 @@ def run_impl(ctx, scns, tag="b"):
     if os.path.exists(fout):
         os.remove(fout)
     env = dict(vlib.GOENV, VERIF_IN=fin, VERIF_OUT=fout)
-    p = subprocess.run([os.path.join(vlib.BUILD, "maindrv.test"), "-test.run", "^TestVerifC01b$", "-test.count=1", "-test.timeout=3000s"],
-                       stdout=subprocess.PIPE, stderr=subprocess.STDOUT, env=env, cwd=os.path.join(vlib.REPO, "server"), timeout=3400 if ctx.tier != "quick" else 400)
-    out = p.stdout.decode("utf8", "replace")
+    cmd = [os.path.join(vlib.BUILD, "maindrv.test"), "-test.run", "^TestVerifC01b$", "-test.count=1", "-test.timeout=3000s"]
+    try:
+        p = subprocess.run(cmd, stdout=subprocess.PIPE, stderr=subprocess.STDOUT, env=env, cwd=os.path.join(vlib.REPO, "server"),
+                           timeout=3400 if ctx.tier != "quick" else 400)
+        rc, out = p.returncode, p.stdout.decode("utf8", "replace")
+    except subprocess.TimeoutExpired as e:
+        # the driver flushes after every request: the scenario without its full output is the one that hung
+        rc, out = -9, (e.stdout or b"").decode("utf8", "replace") + "\nTIMEOUT: the driver did not finish"
     lines = open(fout).read().split("\n") if os.path.exists(fout) else []
     log = "\n".join(l for l in out.split("\n") if not (len(l) > 3 and l[0] in "IWE" and l[1:3] == "20"))
-    return p.returncode, parse(lines), log
+    return rc, parse(lines), log
 
 
 def run_model(ctx, scns):
@@ -297,7 +326,7 @@ def model_valid(model_blocks):
 # ---------------------------------------------------------------------------------------------
 # projection compared with the model
 
-PUB_KINDS = ("pub", "zpub", "burst")
+PUB_KINDS = ("pub", "zpub", "burst", "zfinish")
 
 
 def project(block, kind):
@@ -360,7 +389,14 @@ def expand(sc, blocks):
             ps.ops.append(("N", "pub", [int(args[1]), str(args[2]), int(args[3])]))
             views.append(b)
             back.append(k)
-        elif kind in ("timeout", "hubunreg", "zexit"):
+        elif kind == "zfinish":
+            # the held publish completes: its frames are in this block; the request was sent at hubunregmid
+            m = next((j for j in range(k - 1, -1, -1) if sc.ops[j][1] == "hubunregmid"), None)
+            a = sc.ops[m][2] if m is not None else [0, "0", 0]
+            ps.ops.append(("N", "pub", [int(a[0]), str(a[1]), int(a[2])]))
+            views.append(b)
+            back.append(k)
+        elif kind in ("timeout", "hubunreg", "zexit", "hubunregmid"):
             ps.ops.append(("N", "noop", []))
             views.append(b)
             back.append(k)
@@ -376,7 +412,20 @@ def expand(sc, blocks):
     return ps, vs, back
 
 
+MID_KEY = "unregistered-mid-publish"
+
+
 def monitor(sc, blocks, base_monitor):
+    """The laws; every failure at or after a `hubunregmid` request (an unregistration that lands inside a
+    publish handler - the known finding, KNOWN_FINDINGS key unregistered-mid-publish) is reported under that key."""
+    res = monitor0(sc, blocks, base_monitor)
+    m = next((k for k, o in enumerate(sc.ops) if o[1] == "hubunregmid"), None)
+    if m is None:
+        return res
+    return [(law if (k < m or law == "hang") else MID_KEY, k, detail if k < m else "%s: %s" % (law, detail)) for law, k, detail in res]
+
+
+def monitor0(sc, blocks, base_monitor):
     res = []
     ps, views, back = expand(sc, blocks)
     for law, pk, detail in base_monitor(ps, views):
@@ -401,6 +450,9 @@ def monitor(sc, blocks, base_monitor):
             pubs = [(str(k + 1), int(args[1]), str(args[2]))]
         elif kind == "burst":
             pubs = [("%dx%d" % (k + 1, j), s, c) for j, (s, c, _) in enumerate(burst_pubs(args), 1)]
+        elif kind == "zfinish":
+            m = next((j for j in range(k - 1, -1, -1) if sc.ops[j][1] == "hubunregmid"), None)
+            pubs = [(str(m + 1), int(sc.ops[m][2][0]), str(sc.ops[m][2][1]))] if m is not None else []
         else:
             pubs = []
         if b.get("invalid"):
@@ -452,7 +504,7 @@ def run_flight(ctx, base_monitor):
     if ctx.replay:
         scns = [scn_from_replay(json.load(open(ctx.replay))["replay"])]
     else:
-        n = 110 if quick else 3000
+        n = 130 if quick else 3000
         scns = [gen_flight(rng, "b%d" % i, 0.0 if i % 3 else 0.2) for i in range(n)]
     t0 = time.time()
     rc, impl, log = run_impl(ctx, scns)
@@ -504,6 +556,8 @@ def run_flight(ctx, base_monitor):
         ctx.violation("monitor", law, "law %s fails on the implementation's trace of a burst/unload-race history (%d scenarios this run): %s"
                       % (law, len(lst), detail),
                       {"part": "flight", "head": small.head, "ops": small.ops, "law": law, "detail": detail, "scenarios_failing": len(lst)})
+    known = set(f["key"] for f in ctx.load_findings() if f["property"] == ctx.pid)
+    fails = [f for f in fails if f[1] not in known]
     mism = []
     for sc in scns:
         io, mo = impl[sc.id], model[sc.id]
